@@ -194,10 +194,11 @@ class DrawRecorder:
     def protocol(self):
         out = []
         for w, n, lim, ans in self.calls:
+            # '_k' (number of weights offered) and '_n' (number asked for) are harness-only; the driver reads 'p' / 'c'
             if lim:
-                out.append({'p': [[model_ballot(b), num_str(v)] for b, v in ans.items()]})
+                out.append({'p': [[model_ballot(b), num_str(v)] for b, v in ans.items()], '_k': len(w), '_n': num_str(n)})
             else:
-                out.append({'c': [[NAMES.i(c), num_str(v)] for c, v in ans.items()]})
+                out.append({'c': [[NAMES.i(c), num_str(v)] for c, v in ans.items()], '_k': len(w), '_n': num_str(n)})
         return out
 
 
@@ -267,9 +268,32 @@ def count_info(records):
     return shortcut, (sorted(NAMES.i(c) for c in eliminated) if eliminated else [])
 
 
-def record_run(case, call):
+def canon_obj(o, depth=0, skip=()):
+    """order-preserving canonical form of a python object graph (dicts keep their order; objects by class and attributes;
+    callables by name), used to tell whether something was changed in place"""
+    if depth > 8:
+        return '...'
+    if isinstance(o, dict):
+        return ['dict', [[canon_obj(k, depth + 1), canon_obj(v, depth + 1)] for k, v in o.items() if k not in skip]]
+    if isinstance(o, (list, tuple)):
+        return [type(o).__name__, [canon_obj(x, depth + 1) for x in o]]
+    if isinstance(o, (set, frozenset)):
+        return [type(o).__name__, sorted(json.dumps(canon_obj(x, depth + 1), default=str) for x in o)]
+    if o is None or isinstance(o, (bool, int, float, str, Fraction)):
+        return [type(o).__name__, repr(o)]
+    if callable(o) and hasattr(o, '__qualname__'):
+        return ['callable', getattr(o, '__module__', ''), o.__qualname__]
+    if hasattr(o, '__dict__'):
+        return ['obj', type(o).__name__, id(o) if type(o).__name__ == 'Person' else canon_obj(vars(o), depth + 1)]
+    return ['other', type(o).__name__, repr(o)]
+
+
+def record_run(case, call, args=None, form='selector'):
     """run `call(dist, selector)` on an instrumented distributor; returns (result | {'err'}, counts, draws, bad_draws, errmsg)
-    counts: one dict per executed next_count: alloc_in, prev, alloc_out, elected, shortcut, eliminated, quota"""
+    counts: one dict per executed next_count: alloc_in, prev, alloc_out, elected, shortcut, eliminated, quota.
+    args: the very objects handed to the library (votes, prev_gains, max_seats, allocation): they, the evaluator's own attributes
+    and the returned result must be the same before and after (aliasing, checklist item 12); failures are reported in bad_draws
+    with the prefix 'aliasing:'"""
     import votelib.evaluate.sequential as seq
     dist = make_distributor(case)
     counts = []
@@ -316,6 +340,8 @@ def record_run(case, call):
             del dr.calls[:]
             del dr.bad[:]
             tap.take()
+        args_before = {k: canon_obj(v) for k, v in (args or {}).items()}
+        own_before = canon_obj(vars(dist))
         dist.next_count = wrap_next
         dist._compute_quota = wrap_q
         msg = None
@@ -324,6 +350,31 @@ def record_run(case, call):
         except Exception as e:      # noqa
             res = {'err': err_name(e)}
             msg = str(e)
+        del dist.next_count
+        del dist._compute_quota
+        alias = []
+        for k, v in (args or {}).items():
+            if canon_obj(v) != args_before[k]:
+                alias.append(f'aliasing: the {k} argument was changed by the call: now {v!r}'[:300])
+        if canon_obj(vars(dist)) != own_before:
+            alias.append('aliasing: the attributes of the evaluator changed during the call')
+        if not (isinstance(res, dict) and 'err' in res):
+            # what was returned must stay as it is when the same object counts another election afterwards
+            res_before = canon_obj(res)
+            n_calls, n_bad = len(dr.calls), len(dr.bad)
+            other = {(NAMES.n(0), NAMES.n(1)): 3, (NAMES.n(1),): 2, (NAMES.n(2), NAMES.n(0)): 1}
+            try:
+                call_with_timeout(lambda: (sel if form == 'selector' else dist).evaluate(other, 1), 5)
+            except Exception:      # noqa
+                pass
+            del dr.calls[n_calls:]
+            del dr.bad[n_bad:]
+            tap.take()
+            if canon_obj(res) != res_before:
+                alias.append('aliasing: the returned result changed when the same object counted another election')
+            if canon_obj(vars(dist)) != own_before:
+                alias.append('aliasing: the attributes of the evaluator changed between calls')
+        dr.bad[:0] = alias
         # a state must not change after it was returned: every allocation object of the run is read again now that the process
         # has finished and compared with the copy taken when it was produced (checklist item 6)
         for i, (rec, a_in, a_out) in enumerate(live):
@@ -520,3 +571,72 @@ def reexhaust_profile(rng):
     if rng.random() < 0.5:
         votes.append([[5], '1'])
     return votes
+
+
+# ------------------------------------------------------------------------------------------------
+# checklist items 10 (multiplicity of the rare event) and 11 (every argument x every option)
+
+def multiplicity_cases(rng):
+    """[(votes, n, options, tags)]: the rare events several at a time"""
+    x = rng.randint(0, 4)
+    out = []
+    # three candidates reach the quota (9 of 40..44 votes, four seats) in one count
+    v3 = [[[0, 4], str(12 + x)], [[1, 3], '11'], [[2], '10'], [[3], '4'], [[4, 3], '3']]
+    out.append((v3, 4, {}, ['three_elected_one_count']))
+    out.append((v3, 4, {'method': 'hare', 'seed': rng.randint(0, 9)}, ['three_elected_one_count']))
+    # two candidates elected exactly on the quota (6 of 23 votes, three seats): their piles are used up entirely
+    v2 = [[[0, 2], '6'], [[1, 3], '6'], [[2], '5'], [[3], '3'], [[4, 2], '3']]
+    out.append((v2, 3, {}, ['two_on_quota_exactly']))
+    out.append((v2, 3, {'method': 'hare', 'seed': rng.randint(0, 9)}, ['two_on_quota_exactly']))
+    out.append((v2, 3, {'accept_equal': False}, ['two_on_quota_exactly_not_accepted']))
+    # three-way shared ranks whose weight leaves a remainder of two, under Hare with several seeds (first rank and later rank)
+    k = rng.randint(1, 3)
+    for seed in range(6):
+        out.append(([[[[0, 1, 2], 3], str(3 * k + 2)], [[3, [0, 1, 2]], '5'], [[1], '2'], [[2, 0], '1']], 2,
+                    {'method': 'hare', 'seed': seed}, ['hare_3way_remainder2_directed']))
+    # eliminate_step -2: the two lowest level with each other (both go), and a tie across the boundary (refusal)
+    for q in (None, 'droop'):
+        out.append(([[[0], '9'], [[1, 0], '5'], [[2, 1], '3'], [[3, 0], '3']], 1, {'step': -2, 'quota': q}, ['step2_tie_inside_eliminated']))
+        out.append(([[[0], '9'], [[1, 0], '5'], [[2, 1], '5'], [[3, 0], '3']], 1, {'step': -2, 'quota': q}, ['step2_tie_at_boundary']))
+    # four candidates over a constant quota of 3 for two seats: two over-awarded seats are taken back
+    out.append(([[[0], '6'], [[1, 0], '5'], [[2], '4'], [[3], '3'], [[4], '1']], 2, {'quota': 'const:3'}, ['two_over_awarded_directed']))
+    # a quota below one vote; fewer votes than seats
+    out.append(([[[0, 1], '1/3'], [[1], '1/4'], [[2, 0], '1/5']], 1, {'quota': 'hare'}, ['quota_below_one_directed']))
+    out.append(([[[0, 1], '1/3'], [[1], '1/4'], [[2, 0], '1/5']], 2, {'quota': 'const:1/8'}, ['quota_below_one_directed']))
+    out.append(([[[0, 1], '1'], [[2, 3], '1']], 3, {}, ['fewer_votes_than_seats']))
+    # no seat at all
+    out.append(([[[0, 1], '3'], [[1], '2']], 0, {}, ['n_seats_zero']))
+    return out
+
+
+CROSS_QUOTAS = [('droop', None), ('hare', None), ('hagenbach_bischoff', None), (None, None), ('droop', 'callable'), ('const:7/2', None)]
+
+
+def cross_option_cases(rng, distributor=True):
+    """mandatory_quota x accept_quota_equal x every quota form, in the selector form and in the distributor form with
+    max_seats and prev_gains: [(votes, n, options)]"""
+    out = []
+    for mand in (False, True):
+        for eq in (True, False):
+            for quota, qform in CROSS_QUOTAS:
+                votes = rand_profile(rng, 4, rng.randint(3, 6), rng.choice([0, 0, 0.2]), rng.choice(['small', 'mid']), False, empty_p=0)
+                cands = profile_cands(votes)
+                if len(cands) < 2:
+                    votes = votes + [[[0, 1], '3'], [[1, 2], '2']]
+                    cands = profile_cands(votes)
+                opts = {'mandatory': mand, 'accept_equal': eq, 'quota': quota, 'method': 'gregory'}
+                if qform:
+                    opts['quota_form'] = qform
+                out.append((votes, rng.randint(1, len(cands)), dict(opts, form='selector')))
+                if distributor:
+                    maxs = [[c, rng.randint(1, 3)] for c in cands]
+                    prev = []
+                    big = [c for c, k in maxs if k >= 2]
+                    if big and rng.random() < 0.6:
+                        prev.append([rng.choice(big), 1])
+                    if rng.random() < 0.3:
+                        prev.append([9, 1])
+                        maxs.append([9, 2])
+                    n = rng.randint(max(1, sum(k for _, k in prev)), max(1, sum(k for _, k in prev)) + len(cands))
+                    out.append((votes, n, dict(opts, form='distributor', max=maxs, prev=prev)))
+    return out
